@@ -237,3 +237,10 @@ func literalOwners(r *core.Run, rule, rel, typeName string, allowed map[string]s
 	}
 	return n
 }
+
+func genMode() bool { return os.Getenv("CADCHECK_GEN_TABLES") != "" }
+
+func genJSON(r *core.Run, name string, v any) {
+	b, _ := json.MarshalIndent(v, "", " ")
+	_ = os.WriteFile(r.VerifDir+"/tables/"+name+".json", b, 0o644)
+}
